@@ -112,6 +112,25 @@ pub fn dispatch(t: &[&str]) -> Option<Out> {
                 Err(e) => Out::Err(sm4err(e)),
             })
         }
+        // sm4modehist <mode> <key> e:<iv>:<data> d:<iv>:<data> ... : one mode object, a sequence of calls
+        "sm4modehist" => {
+            let c = match Sm4CipherMode::new(&unhex(t[2]), mode_of(t[1])) {
+                Ok(c) => c,
+                Err(e) => return Some(Out::Err(sm4err(e))),
+            };
+            let mut rs = vec![];
+            for op in &t[3..] {
+                let parts: Vec<&str> = op.split(':').collect();
+                let iv = unhex(parts[1]);
+                let data = unhex(parts[2]);
+                let r = if parts[0] == "e" { c.encrypt(&data, &iv) } else { c.decrypt(&data, &iv) };
+                rs.push(match r {
+                    Ok(v) => hx(&v),
+                    Err(e) => format!("ERR:{}", sm4err(e)),
+                });
+            }
+            Some(Out::Ok(rs.join(" ")))
+        }
         // sm4rt <mode> <key> <iv> <data> : encrypt then decrypt with a fresh object; prints ct and pt
         "sm4rt" => {
             let key = unhex(t[2]);
